@@ -63,6 +63,10 @@ func c02Operands() []operand {
 		{`"ab"`, func() *model.N { return model.Str("ab") }},
 		{`"a b"`, func() *model.N { return model.Str("a b") }},
 		{`"a"+"b"`, func() *model.N { return model.Grp(model.Bin("+", model.Str("a"), model.Str("b"))) }},
+		{"devanagari-digits", func() *model.N { return model.Str("\u0967\u0968") }},
+		{"arabic-indic-digit", func() *model.N { return model.Str("\u0663") }},
+		{"fullwidth-digit-letter", func() *model.N { return model.Str("\uff15x") }},
+		{"mixed-digits-letter", func() *model.N { return model.Str("1\u09e8a") }},
 		{"[]", func() *model.N { return model.Arr() }},
 		{"[1]", func() *model.N { return model.Arr(model.Num(1)) }},
 		{"AA", func() *model.N { return model.Id("AA") }},
@@ -205,7 +209,7 @@ func kindLabel(name string) string {
 	switch {
 	case name == "nil" || name == "true" || name == "false":
 		return name
-	case strings.HasPrefix(name, `"`):
+	case strings.HasPrefix(name, `"`), strings.Contains(name, "digit"):
 		return "string"
 	case name == "[]" || name == "[1]" || name == "AA":
 		return "array"
